@@ -7,7 +7,7 @@ import (
 )
 
 var actNames = []string{"k1", "k2", "K1", "k3", "other"}
-var actValues = []string{"v1", "v22", "V1", "x", "v333", "w7", "", "v1"}
+var actValues = []string{"v1", "v22", "V1", "x", "v333", "w7", "", "v1", "v010", "v08"}
 
 // ActionRequest draws a request with 0..k matching values per rule.
 func ActionRequest(r R) *sl.Req {
